@@ -476,6 +476,78 @@ pub(crate) mod __verif {
         kani::cover!(modified);
     }
 
+    fn unroll_case(min: usize, max: Option<usize>, groups: bool) {
+        let c: u32 = kani::any();
+        let mut n = Node::Loop { loopee: Box::new(Node::Char { c }), quant: Quantifier { min, max, greedy: true }, enclosed_groups: if groups { 0..1 } else { 0..0 } };
+        let r = unroll_loops(&mut n, &walk(false));
+        let fires = !groups && min >= 1 && min <= 5;
+        if !fires {
+            assert!(matches!(&r, PassAction::Keep));
+            assert!(matches!(&n, Node::Loop { quant, .. } if quant.min == min && quant.max == max));
+        } else {
+            assert!(matches!(&r, PassAction::Modified));
+            match &n {
+                Node::Cat(v) => {
+                    let tail = max != Some(min);
+                    assert!(v.len() == min + if tail { 1 } else { 0 }, "min copies of the body, plus the remaining loop unless max == min");
+                    let mut i = 0;
+                    while i < min {
+                        assert!(matches!(&v[i], Node::Char { c: x } if *x == c));
+                        i += 1;
+                    }
+                    if tail {
+                        match &v[min] {
+                            Node::Loop { loopee, quant, enclosed_groups } => {
+                                assert!(quant.min == 0 && quant.greedy);
+                                assert!(quant.max == max.map(|m| m - min), "the remaining loop runs at most max - min more times");
+                                assert!(enclosed_groups.start == enclosed_groups.end);
+                                assert!(matches!(&**loopee, Node::Char { c: x } if *x == c));
+                            }
+                            _ => assert!(false),
+                        }
+                    }
+                }
+                _ => assert!(false),
+            }
+        }
+        core::mem::forget((n, r));
+        kani::cover!(true);
+    }
+
+    // @obligation name=h3_unroll_2_3 props= fn=optimizer::unroll_loops,optimizer::is_unrollable,ir::Node::try_duplicate kind=bounded bound="Loop{2,3}(Char c), symbolic c" min_checks=50 w=3 timeout=1500
+    // unroll_loops on x{2,3}: two copies of the body followed by Loop{0,1} over the same body.
+    #[kani::proof]
+    #[kani::unwind(4)]
+    fn h3_unroll_2_3() {
+        unroll_case(2, Some(3), false);
+    }
+
+    // @obligation name=h3_unroll_2_2 props= fn=optimizer::unroll_loops kind=bounded bound="Loop{2,2}(Char c)" min_checks=50 w=3 timeout=1500
+    // unroll_loops on x{2}: exactly two copies and no trailing loop.
+    #[kani::proof]
+    #[kani::unwind(4)]
+    fn h3_unroll_2_2() {
+        unroll_case(2, Some(2), false);
+    }
+
+    // @obligation name=h3_unroll_1_inf props= fn=optimizer::unroll_loops kind=bounded bound="Loop{1,unbounded}(Char c)" min_checks=50 w=3 timeout=1500
+    // unroll_loops on x+: one copy followed by x*.
+    #[kani::proof]
+    #[kani::unwind(4)]
+    fn h3_unroll_1_inf() {
+        unroll_case(1, None, false);
+    }
+
+    // @obligation name=h3_unroll_not_firing props= fn=optimizer::unroll_loops kind=bounded bound="Loop{0,3}, Loop{6,7}, Loop{2,3} enclosing a group, over Char c" min_checks=50 w=3 timeout=1500
+    // Loops that may run zero times, exceed the threshold, or enclose capture groups are kept unchanged.
+    #[kani::proof]
+    #[kani::unwind(4)]
+    fn h3_unroll_not_firing() {
+        unroll_case(0, Some(3), false);
+        unroll_case(6, Some(7), false);
+        unroll_case(2, Some(3), true);
+    }
+
     // ---------------------------------------------------------------------------------------------
     // Whole optimizer (all passes to fixpoint through the recursive tree walk) on small IR trees.
 
